@@ -30,6 +30,8 @@ import (
 	"fmt"
 	"io"
 	"net"
+	"net/http"
+	"net/url"
 	"os"
 	"strings"
 	"testing"
@@ -84,6 +86,21 @@ func (p *vfC29Pipe) SetDeadline(t time.Time) error      { return nil }
 func (p *vfC29Pipe) SetReadDeadline(t time.Time) error  { return nil }
 func (p *vfC29Pipe) SetWriteDeadline(t time.Time) error { return nil }
 
+// vfC29H2RW: a flushable, non-hijackable ResponseWriter (what an HTTP/2 server hands to a handler); body bytes are
+// recorded in the pipe double.
+type vfC29H2RW struct {
+	hdr  http.Header
+	code int
+	pipe *vfC29Pipe
+}
+
+func (w *vfC29H2RW) Header() http.Header                { return w.hdr }
+func (w *vfC29H2RW) Write(b []byte) (int, error)        { return w.pipe.Write(b) }
+func (w *vfC29H2RW) WriteHeader(code int)               { w.code = code }
+func (w *vfC29H2RW) Flush()                             {}
+func (w *vfC29H2RW) SetReadDeadline(t time.Time) error  { return nil }
+func (w *vfC29H2RW) SetWriteDeadline(t time.Time) error { return nil }
+
 // ---------------------------------------------------------------------------------------------------------------
 // case
 
@@ -93,7 +110,7 @@ type vfC29Cfg struct {
 	ReadLimit   int64
 	DecompLimit int64
 	ReadBuf     int   // readBufferSize given to newConn
-	SmallBr     bool  // hand newConn a 16 byte bufio.Reader like Upgrader.upgradeH2 does
+	SmallBr     bool  // server role only: obtain the Conn through Upgrader.Upgrade on an HTTP/2 extended CONNECT request (own small bufio.Reader)
 	Chunks      []int // net.Conn Read chunk sizes (cycled); empty = as much as asked
 	Modes       []int // per read: 0 ReadMessage, 1 NextReader + chunked reads to EOF, 2 NextReader + a few reads then abandon
 	ReadChunks  []int // buffer sizes for NextReader reads (cycled)
@@ -105,7 +122,7 @@ func (c vfC29Cfg) String() string {
 	if c.Server {
 		role = "server"
 	}
-	return fmt.Sprintf("role=%s deflate=%v readLimit=%d decompLimit=%d readBuf=%d smallBr=%v chunks=%v modes=%v rchunks=%v abandon=%d",
+	return fmt.Sprintf("role=%s deflate=%v readLimit=%d decompLimit=%d readBuf=%d viaH2=%v chunks=%v modes=%v rchunks=%v abandon=%d",
 		role, c.Deflate, c.ReadLimit, c.DecompLimit, c.ReadBuf, c.SmallBr, c.Chunks, c.Modes, c.ReadChunks, c.Abandon)
 }
 
@@ -135,14 +152,27 @@ func vfC29Exec(cfg vfC29Cfg, stream []byte, maxReads int) (run vfC29Run) {
 		}
 	}()
 	pipe := &vfC29Pipe{in: stream, chunks: cfg.Chunks}
-	var br *bufio.Reader
-	if cfg.SmallBr {
-		br = bufio.NewReaderSize(pipe, 16)
-	}
-	c := newConn(pipe, cfg.Server, cfg.ReadBuf, 0, nil, br, nil)
-	if cfg.Deflate {
-		c.newCompressionWriter = compressNoContextTakeover
-		c.newDecompressionReader = decompressNoContextTakeover
+	var c *Conn
+	if cfg.SmallBr && cfg.Server {
+		// the Conn the library itself builds for an HTTP/2 extended CONNECT (RFC 8441) request: reads come from the
+		// request body, writes go through the ResponseWriter
+		req := &http.Request{Method: http.MethodConnect, URL: &url.URL{Path: "/"}, Proto: "HTTP/2.0", ProtoMajor: 2, Host: "example.com",
+			Header: http.Header{":protocol": {"websocket"}, "Sec-Websocket-Version": {"13"}}, Body: io.NopCloser(pipe)}
+		if cfg.Deflate {
+			req.Header["Sec-Websocket-Extensions"] = []string{"permessage-deflate"}
+		}
+		up := Upgrader{EnableCompression: cfg.Deflate, ReadBufferSize: cfg.ReadBuf}
+		var err error
+		c, _, err = up.Upgrade(&vfC29H2RW{hdr: http.Header{}, pipe: pipe}, req, nil)
+		if err != nil || c.IsCompressionNegotiated() != cfg.Deflate {
+			panic(fmt.Sprintf("harness: extended CONNECT upgrade failed: %v", err))
+		}
+	} else {
+		c = newConn(pipe, cfg.Server, cfg.ReadBuf, 0, nil, nil, nil)
+		if cfg.Deflate {
+			c.newCompressionWriter = compressNoContextTakeover
+			c.newDecompressionReader = decompressNoContextTakeover
+		}
 	}
 	c.SetReadLimit(cfg.ReadLimit)
 	c.SetDecompressedReadLimit(cfg.DecompLimit)
@@ -431,6 +461,9 @@ func vfC29JudgeOne(cfg vfC29Cfg, ref *vfWSRefResult, run vfC29Run) vfC29Verdict 
 				if k == vfWSRefVCloseUTF8 {
 					okCodes[1007] = true
 				}
+				if k == vfWSRefVLenMSB {
+					okCodes[1009] = true // a length of 2^63 or more is also "too big to process"
+				}
 			}
 			cut := !T.HeaderComplete || (!T.FrameComplete && T.PayloadLen <= 125)
 			var ce *CloseError
@@ -687,7 +720,7 @@ func vfC29Generate(rt *rapid.T, c *vfCase) (vfC29Cfg, []byte, string) {
 	cfg.Server = rapid.Bool().Draw(rt, "server")
 	cfg.Deflate = rapid.Bool().Draw(rt, "deflate")
 	cfg.ReadBuf = rapid.SampledFrom([]int{0, 0, 1, 125, 126, 300, 4096}).Draw(rt, "readbuf")
-	cfg.SmallBr = rapid.IntRange(0, 14).Draw(rt, "smallbr") == 0
+	cfg.SmallBr = rapid.IntRange(0, 9).Draw(rt, "smallbr") == 0 && cfg.Server
 	switch rapid.IntRange(0, 3).Draw(rt, "chunkmode") {
 	case 0:
 	case 1:
@@ -860,12 +893,6 @@ func vfC29Known(c *vfCase, key, example string) bool {
 	if key == "" {
 		return false
 	}
-	if dev := os.Getenv("VF_DEV_KNOWN"); dev != "" && strings.Contains(dev, key) { // DEVONLY
-		if c != nil {
-			c.Label("devknown:" + key)
-		}
-		return true
-	}
 	if c != nil {
 		return c.Known(key, example)
 	}
@@ -926,7 +953,7 @@ func vfC29Check(c *vfCase, cfg vfC29Cfg, stream []byte) (string, *vfWSRefResult,
 			}
 		}
 		if cur.SmallBr && bufFull {
-			// Upgrader.upgradeH2 hands newConn a 16 byte bufio.Reader; control frame payloads longer than that
+			// Upgrader.upgradeH2 hands newConn a bufio.Reader smaller than a control frame payload; such payloads
 			// cannot be peeked (bufio.ErrBufferFull).
 			keys = append(keys, vfC29KeySmallBr)
 			cur.SmallBr = false
@@ -1061,7 +1088,7 @@ func FuzzVF_C29(f *testing.F) {
 		} else if cfg.DecompLimit == 0 {
 			cfg.DecompLimit = 1 << 22 // keep bombs found by the fuzzer bounded
 		}
-		cfg.SmallBr = (b1>>6)&3 == 3
+		cfg.SmallBr = (b1>>6)&3 == 3 && cfg.Server
 		cfg.ReadBuf = []int{0, 1, 126, 300}[b2&3]
 		switch (b2 >> 2) & 3 {
 		case 1:
